@@ -55,6 +55,9 @@ Definition live (x : tok) : Z := match x with Pending _ | Firing | Queued => 1 |
 (* how many entries of the queue belong to a timer whose token is x *)
 Definition qcount (x : tok) : nat := match x with Queued => 1%nat | _ => 0%nat end.
 
+(* number of expiries sitting in the channel (sent, not yet received by the owner) *)
+Definition occupancy (s : st) : Z := Z.of_nat (length (queue s) - recvd s).
+
 (* ---- the property, clause by clause ---- *)
 
 (* once cancelled - wherever the cancel falls - the callback never runs again *)
@@ -117,6 +120,9 @@ Definition m_next (m : mstate) : Z := Z.of_nat (length m).
 Definition m_create (m : mstate) (d : Z) (rep : bool) (p : prog) : mstate :=
   aset (m_next m) (mkM (repeating d rep) p false 0) m.
 
+Fixpoint m_create_n (n : nat) (m : mstate) (d : Z) (rep : bool) : mstate :=
+  match n with O => m | S n' => m_create_n n' (m_create m d rep []) d rep end.
+
 Definition m_cancel (m : mstate) (k : Z) : mstate :=
   match aget k m with
   | Some i => aset k (mkM (m_rep i) (m_prog i) true (m_count i)) m
@@ -175,6 +181,8 @@ Fixpoint monitor_from (m : mstate) (ops : list op) (bs : list obs) : bool :=
   | o :: r, b :: br =>
       match o, b with
       | OCreate d rep _ p, BUnit => monitor_from (m_create m d rep p) r br
+      | OCreateN n d rep _, BUnit => monitor_from (m_create_n (Z.to_nat n) m d rep) r br
+      | OStall _, BUnit => monitor_from m r br
       | OCancel k, BUnit => monitor_from (m_cancel m k) r br
       | (OStop | OSettle _), BQueued l => m_queued_ok m l && monitor_from m r br
       | ODo k, BRan l =>
